@@ -87,6 +87,7 @@ func check(args []string) (code int) {
 	repo := fs.String("repo", "/repo", "repository root")
 	noWrite := fs.Bool("no-write", false, "do not write evidence/replay files")
 	quiet := fs.Bool("quiet", false, "only print findings")
+	listUndec := fs.Bool("undecided", false, "also print every undecided obligation")
 	fs.Parse(args[1:])
 	if *tier != "quick" && *tier != "thorough" {
 		*tier = "quick"
@@ -113,6 +114,7 @@ func check(args []string) (code int) {
 	c.Start = t0
 	c.NoWrite = *noWrite
 	c.Quiet = *quiet
+	c.ListUndecided = *listUndec
 	fn(c)
 	code = c.Finish()
 	if code == 0 && *tier == "thorough" && !*noWrite && *repo == "/repo" {
